@@ -4,6 +4,8 @@ import Mathlib.Data.List.Sort
 import Mathlib.Data.List.Perm.Basic
 import Mathlib.Tactic.Ring
 import Mathlib.Tactic.Linarith
+import Mathlib.Analysis.SpecialFunctions.Trigonometric.Basic
+import Mathlib.Analysis.SpecialFunctions.Sqrt
 
 /-! # C20 — phase-diagram sampling lies on the coupling simplex; parallel map equals serial -/
 
@@ -192,5 +194,35 @@ theorem parallel_eq_serial_any_chunking (f : α → β) (points : List α) (chun
 example : plain 3 = [(0, 0, 4), (1, 0, 3), (2, 0, 2), (0, 1, 3), (1, 1, 2), (2, 1, 1), (0, 2, 2), (1, 2, 1), (2, 2, 0)] := by decide
 example : (symmetric 4).length = 7 := by decide
 example : reassemble [(2, [30]), (0, [10, 11]), (1, [20])] = [10, 11, 20, 30] := by decide
+
+end C20
+
+namespace C20
+open Real
+
+/-! ### the six triangulations of the symmetric scheme are congruent images of one another -/
+
+/-- `rotation(t) @ v` -/
+noncomputable def rot (t : ℝ) (v : ℝ × ℝ) : ℝ × ℝ := (cos t * v.1 - sin t * v.2, sin t * v.1 + cos t * v.2)
+
+/-- `skew @ v`: the right triangle of couplings drawn as an equilateral one -/
+noncomputable def skew (v : ℝ × ℝ) : ℝ × ℝ := (v.1 + (1 / 2) * v.2, (√3 / 2) * v.2)
+
+def swap (v : ℝ × ℝ) : ℝ × ℝ := (v.2, v.1)
+
+def sqDist (v w : ℝ × ℝ) : ℝ := (v.1 - w.1) ^ 2 + (v.2 - w.2) ^ 2
+
+/-- rotating about a centre keeps every distance -/
+theorem rot_about_isometry (t : ℝ) (c v w : ℝ × ℝ) :
+    sqDist (let p := rot t (v.1 - c.1, v.2 - c.2); (p.1 + c.1, p.2 + c.2)) (let p := rot t (w.1 - c.1, w.2 - c.2); (p.1 + c.1, p.2 + c.2)) = sqDist v w := by
+  simp only [sqDist, rot]
+  have h := cos_sq_add_sin_sq t
+  nlinarith [h]
+
+/-- exchanging the two couplings before the skew is a reflection of the equilateral triangle: it keeps every distance between skewed points -/
+theorem swap_skew_isometry (v w : ℝ × ℝ) : sqDist (skew (swap v)) (skew (swap w)) = sqDist (skew v) (skew w) := by
+  simp only [sqDist, skew, swap]
+  have h3 : (√3) ^ 2 = 3 := Real.sq_sqrt (by norm_num)
+  nlinarith [h3]
 
 end C20
